@@ -211,7 +211,7 @@ def run(ctx):
                     x = ev[j]
                     if x["k"] == "call" and x["callee"] in solver_fns:
                         break
-                    if x["k"] == "call" and x["callee"].endswith("::get_rule"):
+                    if x["k"] == "call" and S.is_fetch(x["callee"]):
                         n_seg += 1
                         if not flag_guard_between(E, p, i, j):
                             viol = (e, x)
